@@ -8,8 +8,8 @@ func init() {
 	register(&property{
 		ID: "C07",
 		Explanation: "Decides the structural conditions that keep streams isolated and keep a stream's data on one channel: every queue element, fallback event and close event built in Stream code carries the receiver's own id; on the receiving side the stream handed to the message handler is the one looked up (under the stream lock) with the element's / event's own id; the fallback mark is sticky (set anywhere, cleared only by the pool-reuse reset); in Flush the transport is chosen after the mark was updated and the fallback edge never reaches the queue; " +
-			"the close notification uses the channel the stream's data uses (queue only when the stream is not in fallback state); only the close routine announces streamClosed and Flush enqueues only the opened state it checked. NOT decided: order across the two channels under all schedules (e.g. a close that falls back to the connection because the queue is full while data is still queued), per-stream order under concurrent writers, cross-stream isolation of the bytes themselves (depends on C01).",
-		RuleText: "R07.1 value identity of every seqID operand in Stream methods and of the lookup key on the receive side; R07.2 census of stores to Stream.inFallbackState; R07.3 dominance in Flush; R07.4 sibling agreement close vs Flush on the channel choice; R07.5 census of status operands.",
+			"the close notification uses the channel the stream's data uses (queue only when the stream is not in fallback state); only the close routine announces streamClosed and Flush enqueues only the opened state it checked; fallback payload handed to a stream is a copy, never an alias of the connection's shared read buffer. NOT decided: order across the two channels under all schedules (e.g. a close that falls back to the connection because the queue is full while data is still queued), per-stream order under concurrent writers, cross-stream isolation of the bytes themselves (depends on C01).",
+		RuleText: "R07.1 value identity of every seqID operand in Stream methods and of the lookup key on the receive side; R07.2 census of stores to Stream.inFallbackState; R07.3 dominance in Flush; R07.4 sibling agreement close vs Flush on the channel choice; R07.5 census of status operands; R07.6 escape analysis of the connection's read buffer in wire handlers (shared with C06 R06.5 / C18 R18.6).",
 		Run:      runC07,
 	})
 }
@@ -256,6 +256,10 @@ func runC07(p *P, r *R) {
 			}
 		}
 	}
+	// R07.6 bytes delivered to a stream through the connection are a private copy: the connection's read
+	// buffer is reused for the next event (of any stream), so an alias would let other traffic rewrite them
+	noEscapeOfEventBuffer(p, r, "R07.6")
+
 	// the receive side applies the fallback mark when fallback data arrives (so that the answer uses the same channel)
 	if mv := p.fn("(*pendingData).moveToWithoutLock"); mv != nil {
 		ok := false
